@@ -590,6 +590,12 @@ def gen_nested_ifc_design(rng):
   for a in range(A):
     for b in range(B):
       L.append(f"      s.ifc[{a}].sub[{b}].rsp @= (s.ifc[{a}].sub[{b}].msg ^ {(a * 5 + b * 3 + 1) % (1 << w)}) + s.ifc[{a}].tag + K")
+  pick = A == 2 and rng.random() < 0.7
+  if pick:
+    # the OUTER list is indexed by an element of a PORT ARRAY while the inner list has an index of its own
+    i0 = L.index("    @update")
+    L.insert(i0, "    s.sel = [InPort(1) for _ in range(2)]; s.pick = OutPort(T)")
+    L.append(f"      s.pick @= s.ifc[ s.sel[1] ].sub[{rng.randrange(B)}].msg")
   L += ["class NTop(Component):", "  def construct(s):", f"    T = mk_bits({w})", f"    s.leaf = NLeaf(T, {A}, {B}, {rng.randrange(1, 4)})",
         f"    s.msg = [[InPort(T) for _ in range({B})] for _ in range({A})]; s.rsp = [[OutPort(T) for _ in range({B})] for _ in range({A})]",
         f"    s.tag = [InPort(T) for _ in range({A})]"]
@@ -598,6 +604,8 @@ def gen_nested_ifc_design(rng):
     for b in range(B):
       L.append(f"    s.leaf.ifc[{a}].sub[{b}].msg //= s.msg[{a}][{b}]")
       L.append(f"    s.rsp[{a}][{b}] //= s.leaf.ifc[{a}].sub[{b}].rsp")
+  if pick:
+    L += ["    s.sel = [InPort(1) for _ in range(2)]; s.pick = OutPort(T)", "    s.leaf.sel[0] //= s.sel[0]; s.leaf.sel[1] //= s.sel[1]; s.pick //= s.leaf.pick"]
   return "\n".join(L) + "\n"
 
 
